@@ -1530,9 +1530,11 @@ class TimeSeries(TimeSeriesBase):
             raise ValueError('e has to be of Epochs type')
 
         if e.data.ndim == 0:
+            # (the interval itself, not the rate: beyond 2**52 ps a binary64
+            # rate no longer gives the whole-picosecond interval back)
             return TimeSeries(data=self.data[..., self.time.slice_during(e)],
                               time_unit=self.time_unit, t0=e.offset,
-                              sampling_rate=self.sampling_rate)
+                              sampling_interval=self.sampling_interval)
         else:
             # TODO: make this a more efficient implementation, naive first pass
             if (e.duration != e.duration[0]).any():
@@ -1543,7 +1545,7 @@ class TimeSeries(TimeSeriesBase):
 
             return TimeSeries(data=data,
                               time_unit=self.time_unit, t0=e.offset,
-                              sampling_rate=self.sampling_rate)
+                              sampling_interval=self.sampling_interval)
 
     @property
     def shape(self):
